@@ -439,6 +439,8 @@ func (h *handler) oneCall(ci *connInfo, cb string) {
 			lim = h.rnd.Pick([]int{0, 1, 3, sz, h.cfg.bufcap / 2, h.cfg.bufcap + 7})
 		}
 		h.doCall(ci, "writeto", lim, nil, false)
+	case k < 49 && !ci.udp && h.cfg.proto != "udp":
+		h.doCall(ci, "dup", 0, nil, false)
 	case k < 54:
 		h.doCall(ci, "inbuf", 0, nil, false)
 	case k < 60:
@@ -583,6 +585,20 @@ func (h *handler) doCall(ci *connInfo, call string, n int, data []byte, cb bool)
 		h.obs(ci, tr.L("hr", tr.I(ci.mcid), "discard", tr.I(m)))
 		ci.consumed += m
 		h.checkInbound(ci, "discard")
+	case "dup":
+		// Conn.Dup hands a descriptor to the user: oracle only (no model line); it stays open until the
+		// end of the case, so the socket outlives the connection's own descriptor
+		rec.mu.Lock()
+		rec.suppress = true
+		rec.mu.Unlock()
+		fd, err := c.Dup()
+		rec.mu.Lock()
+		rec.suppress = false
+		if err == nil {
+			delete(rec.owned, fd)
+			rec.userFds = append(rec.userFds, fd)
+		}
+		rec.mu.Unlock()
 	case "writeto":
 		s := sink{lim: n}
 		if n < 0 {
